@@ -52,7 +52,16 @@ GENERIC_NOTE = ('every _parse/_build/_sizeof/_decode/_encode/_actualsize body of
                 'Slicing, Indexing, CompressedLZ4, Encrypted*, Rebuffered, Expr* adapters are out of scope) is executed symbolically from the real AST '
                 'against the Construct interface contract, assuming only that contract of its sub-constructs (structural induction over construct trees)')
 
-NOT_APPLICABLE = {}
+NOT_APPLICABLE = {
+    'C02': 'not decided: needs the closure / equality-congruence traits of the interface contract and the canonical ghost program over contracts that are not written yet (canonical VarInt, strings, mappings). Not reached in the time available; nothing is claimed.',
+    'C04': 'not decided: the compiler emits source text with holes for the members; putting those fragments under contract needs a second front end (emitted text -> AST with hole substitution) that was not built. Nothing is claimed.',
+    'C10': 'not decided as a whole: the helpers it rests on (bytes2bits, bits2bytes, swapbitsinbytes, RestreamedBytesIO.write/close, BitsInteger) are verified under C03/C06, but the packing lemma across byte boundaries for Bitwise/Restreamed/Transformed (two code paths) is not written, so the property is not claimed.',
+    'C12': 'not decided: macro equivalences need the macro graph plus extensional equality of the contracts of both sides; only the alias-table enumeration exists (used by C03). Nothing is claimed.',
+    'C15': 'not claimed: contracts for ProcessXor exist and discharge within the thorough budget, but one obligation (ProcessXor._build, cycled-key clause) needs 26-50 s and is not reliable within the quick budget; ProcessRotateLeft and the byte/bit swaps as inverses are not under a lemma yet. Claiming it would risk a verdict that flips under load.',
+    'C16': 'not decided: needs representation invariants over LazyContainer / LazyListContainer (offset tables, cached values, stream position discipline) that were not written. Nothing is claimed.',
+    'C19': 'not applicable to this technique here: the property relates the exported KSY text to the byte layout a KSY compiler would derive; there is no executable KSY semantics offline to state a postcondition against, and checking emitted attribute names against a hand table decides nothing of the stated property.',
+    'C20': 'not decided: Container/ListContainer are dict/list subclasses whose behaviour is mostly that of CPython builtins (dict equality and ordering, copy, pickle, re in search, string formatting in hexdump) outside the modelled Python subset; a contract would restate assumed builtin contracts rather than verify repository code.',
+}
 
 PROPS = {
     'C03': dict(functional=True, generic=False, level='proof', extra=native_tables('C03', ('tables', 'aliases')),
@@ -62,45 +71,45 @@ PROPS = {
                 assumptions=PY_SEM + [E1, E2, E3, E5, 'floats: bit patterns not verified'],
                 explanation='each function under contract is verified path by path against a specification written from the wire format'),
     'C06': dict(functional=True, generic=True, level='proof', trusted_base=[E3, E5],
-                level_text='For ' + GENERIC_NOTE + ': on every path, under an exact io.BytesIO model and under an adversarial stream model (every stream call may raise any Exception, return data of any length or any integer), only ConstructError subclasses escape _parse (StreamError for the stream helpers), no stream exception escapes _build unwrapped, and a normal return never hides a short write. Truncated input is StreamError for the primitives under functional contract. Termination is proved only for the loops that carry a variant (VarInt._build, integer2bits).',
-                level_note='Assumes E5 (context expressions total and of the declared type in parse/build), valid parameterisation (documented parameter types; FocusedSeq/Union selectors name a member), sub-constructs satisfying the same clauses (induction), user callables outside the property. Known finding: Compressed leaks codec library errors.',
+                level_text='For ' + GENERIC_NOTE + ': on every path, under an exact io.BytesIO model and under an adversarial stream model (every stream call may raise any Exception, return data of any length or any integer), only ConstructError subclasses escape _parse (StreamError for the stream helpers), no stream exception escapes _build unwrapped, and a normal return never hides a short write. Truncated input is StreamError for the primitives under functional contract. Termination: loops over member lists and supplied sequences are finite by construction; the scanning loops carry variants (bytes left in the stream: VarInt._parse, NullTerminated._parse, GreedyRange._parse; value halving: VarInt._build, integer2bits). RepeatUntil ends when the user predicate says so (outside the property).',
+                level_note='Assumes E5 (context expressions total and of the declared type in parse/build), valid parameterisation (documented parameter types; FocusedSeq/Union selectors name a member), sub-constructs satisfying the same clauses (induction), user callables outside the property. Known findings: Compressed leaks codec library errors; GreedyRange over a zero-width element does not terminate (its variant obligation fails).',
                 assumptions=PY_SEM + [E3, E5, 'adversarial stream: methods raise any Exception subclass, read returns bytes of any length, write/seek/tell return any int',
                                       'sub-constructs satisfy the interface contract (structural induction)'],
                 explanation='exception classes escaping every _parse/_build/_sizeof under both stream models'),
     'C18': dict(functional=True, generic=True, level='proof', trusted_base=[E5],
-                level_text='For ' + GENERIC_NOTE + ': every ConstructError raised carries path= and that path extends the method\'s path argument; every sub-construct call receives the method\'s path (Renamed: path + " -> name", proved as a postcondition on the escaping error); the stream helpers raise with the path they were given. By induction on nesting the escaping path is the operation tag followed by the names of the enclosing Renamed members in order. The public entry points and the truncation-offset lemma are not yet under contract.',
+                level_text='For ' + GENERIC_NOTE + ': every ConstructError raised carries path= and that path extends the method\'s path argument; every sub-construct call receives the method\'s path (Renamed: path + " -> name", proved as a postcondition on the escaping error); the stream helpers raise with the path they were given. By induction on nesting the escaping path is the operation tag followed by the names of the enclosing Renamed members in order. An error raised by a raise statement inside an except handler (an error that replaces a member's error) is proved to keep the member's path. The public entry points and the truncation-offset lemma are not yet under contract.',
                 level_note='Assumes the interface clause for sub-constructs (errors extend the path they were handed), which is what each class is proved to establish. Known findings: Tunnel._parse and Select._build restart the path by re-entering through the public parse/build.',
                 assumptions=PY_SEM + [E5, 'sub-constructs raise errors whose path extends the path they were given (interface clause, established per class)']),
     'C05': dict(functional=True, generic=True, level='proof', trusted_base=[E5],
-                level_text='For every _sizeof body of the core classes: whatever the context expressions do (including raising KeyError/AttributeError for a missing key), only SizeofError escapes and a returned size is an int >= 0, assuming only that of sub-constructs. Exactness of the size against the stream advance of build and parse is proved for the classes under functional contract listed in the evidence.',
+                level_text='For every _sizeof body of the core classes: whatever the context expressions do (including raising KeyError/AttributeError for a missing key), only SizeofError escapes and a returned size is an int >= 0, assuming only that of sub-constructs. Exactness of the size against the stream advance of build and parse is proved by the 'sized' ghost program (sizeof answers n => a successful build appends n bytes and a successful parse of them, followed by any tail, advances n) for Padded, Aligned, FixedSized, Prefixed, Const, Flag, Bytes, BytesInteger, BitsInteger, FormatField, IfThenElse (the same branch in sizeof, build and parse) and Default; the _sizeof bodies of Padded, Aligned, FixedSized, Prefixed, IfThenElse and plain delegation are proved against functional contracts.',
                 level_note='Documented exemptions are preconditions: lengths/counts >= 0, moduli >= 2. Sub-constructs are assumed to satisfy the same clauses (induction).',
                 assumptions=PY_SEM + [E5, 'lengths/counts are non-negative and moduli >= 2 (documented exemption)']),
     'C10': dict(functional=True, generic=False, level='proof', trusted_base=[], assumptions=PY_SEM, claimed=False,
                 level_text='bit/byte regrouping helpers proved against MSB-first specifications', level_note='helpers only so far'),
     'C09': dict(functional=True, generic=False, level='proof', trusted_base=[], assumptions=PY_SEM,
-                level_text='Peek: position restored on success, on a swallowed ConstructError and when ExplicitError propagates; result is the inner value or None. Pointer._parse: inner construct processed at the absolute (or end-relative) target, position restored. RawCopy._parse: final position is the end of the inner parse. Stream helpers: exact seek/tell semantics. Select, GreedyRange, Union and the build side of Pointer are covered by the cross-cutting clauses (no swallowed ExplicitError, frames) but not yet by functional position clauses.',
+                level_text='Peek: position restored on success, on a swallowed ConstructError and when ExplicitError propagates; result is the inner value or None. Pointer._parse: inner construct processed at the absolute (or end-relative) target of the stream the Pointer designates (the enclosing one, or the one its stream= parameter names: modelled by a second, unrelated stream object), and the position of THAT stream restored while the other is untouched. RawCopy._parse: final position is the end of the inner parse. Stream helpers: exact seek/tell semantics. Select, GreedyRange, Union and the build side of Pointer are covered by the cross-cutting clauses (no swallowed ExplicitError, frames) but not yet by functional position clauses.',
                 level_note='Trusted: pyvc, solvers, E3.'),
     'C13': dict(functional=True, generic=True, level='proof', trusted_base=[], assumptions=PY_SEM,
-                level_text="Const (parse accepts only a value == the constant, build always emits the constant's encoding and refuses any other supplied value with ConstError), Check (parse and build raise CheckError exactly when the condition is falsy), Validator and through it ExprValidator/OneOf/NoneOf (decode and encode are the same predicate: admit-on-parse iff admit-on-build iff predicate), Enum and Mapping encode/decode (unknown labels are MappingError, known labels/values translate through the tables, unmapped integers of any magnitude pass through unchanged) are proved against their contracts. For every core class: an ExplicitError raised by a sub-construct is never swallowed, through every handler and loop (Select, Optional, GreedyRange, Peek for parse and build). FlagsEnum and the mutual inverseness of the Enum tables built by __init__ are not yet under contract.",
+                level_text="Const (parse accepts only a value == the constant, build always emits the constant's encoding and refuses any other supplied value with ConstError), Check (parse and build raise CheckError exactly when the condition is falsy), Validator and through it ExprValidator/OneOf/NoneOf (decode and encode are the same predicate: admit-on-parse iff admit-on-build iff predicate), Enum and Mapping encode/decode (unknown labels are MappingError, known labels/values translate through the tables, unmapped integers of any magnitude pass through unchanged) are proved against their contracts. For every core class: an ExplicitError raised by a sub-construct is never swallowed, through every handler and loop (Select, Optional, GreedyRange, Peek for parse and build). FlagsEnum._decode is proved, for any number of labels, to set every label exactly when ALL bits of its mask are set (loop invariant over the flags mapping). FlagsEnum._encode (string splitting) and the mutual inverseness of the Enum tables built by __init__ are not yet under contract.",
                 level_note='Label tables are uninterpreted finite maps; validators are pure functions of (object, context). Trusted: pyvc, solvers.'),
     'C14': dict(functional=True, generic=False, level='proof', trusted_base=[], assumptions=PY_SEM,
-                level_text='RawCopy._parse is proved to return data == the stream slice between the reported offsets, length == their difference, value == the inner value, offsets == absolute positions before/after, final position == end of the inner parse, buffer unchanged. RawCopy._build and Checksum are covered only by the cross-cutting clauses so far.',
+                level_text='RawCopy._parse is proved to return data == the stream slice between the reported offsets, length == their difference, value == the inner value, offsets == absolute positions before/after, final position == end of the inner parse, buffer unchanged. RawCopy._build is proved for both branches: from data (writes exactly the given bytes, offsets before/after) and from value (the stream stands right after the bytes the inner build wrote, offsets are the positions before and after, data is exactly the bytes between them in the final buffer, value is what the inner build returned or the given value). Checksum is covered only by the cross-cutting clauses so far.',
                 level_note='Trusted: pyvc, solvers, E3. Hash collision-freedom would be an explicit assumption (not yet needed).'),
     'C08': dict(functional=True, generic=False, level='proof', trusted_base=[], assumptions=PY_SEM,
-                level_text='BytesIOWithOffsets.tell/seek and from_reading are proved against the abstract substream model (tell = inner position + parent offset; absolute seek subtracts it; the substream holds exactly the next n bytes and starts reporting at the absolute outer position); FixedSized and Prefixed (with and without includelength) are proved to hand their inner construct a substream over exactly the region, to return its value, and to leave the outer stream at the region end whatever the inner construct consumed; Pointer and RawCopy offsets are absolute. NullTerminated, NullStripped, OffsettedEnd and ProcessXor are covered only by the cross-cutting clauses so far.',
+                level_text='BytesIOWithOffsets.tell/seek and from_reading are proved against the abstract substream model (tell = inner position + parent offset; absolute seek subtracts it; the substream holds exactly the next n bytes and starts reporting at the absolute outer position); FixedSized and Prefixed (with and without includelength) are proved to hand their inner construct a substream over exactly the region, to return its value, and to leave the outer stream at the region end whatever the inner construct consumed; Pointer and RawCopy offsets are absolute. NullTerminated._parse is proved against a specification scan for terminators of 1, 2 and 3 bytes (stride = terminator length): the inner construct sees exactly the bytes before the first aligned terminator (with it when include is set), the outer stream stands after the terminator, or at it when consume is unset, a missing terminator is StreamError when required. NullStripped, OffsettedEnd, longer terminators and ProcessXor are covered only by the cross-cutting clauses so far.',
                 level_note='Inner constructs are known through the interface functions, whose arguments include the absolute base of the stream. Trusted: pyvc, solvers, E3.'),
     'C01': dict(functional=False, generic=False, closure_tags=('C03', 'C08', 'C10', 'C14', 'C15'), level='proof', trusted_base=[], assumptions=PY_SEM,
-                level_text='Round-trip lemma proved as a ghost program over the verified method contracts (build, then parse the built bytes followed by arbitrary trailing data: parse succeeds, returns the value build returned and consumes exactly the built bytes) for: Padded, Aligned, FixedSized, Prefixed, Const, Flag, Bytes, GreedyBytes and FormatField in its 27 integer/bool formats. The lemma is parametric in the sub-constructs (any construct satisfying the round-trip trait, at any nesting depth, by structural induction) and holds for all values, lengths, moduli and trailing data. Struct is verified against specification folds (Layer A) but its fold round-trip lemma, VarInt/ZigZag/BytesInteger/BitsInteger, strings, arrays and the remaining combinators are not yet under this lemma.',
+                level_text='Round-trip lemma proved as a ghost program over the verified method contracts (build, then parse the built bytes followed by arbitrary trailing data: parse succeeds, returns the value build returned and consumes exactly the built bytes) for: Padded, Aligned, FixedSized, Prefixed, Const, Flag, Bytes, GreedyBytes, BytesInteger (any width, both byte orders, signed and unsigned), BitsInteger (any width, signed and unsigned, not byte-swapped), Default, IfThenElse and FormatField in its 27 integer/bool formats. The integer cases rest on Layer-B lemmas proved by induction (shr_add, shr_ge, be_top, le_top, bits_prefix) whose definitional unfoldings are obligations of their own. Every contract the ghost programs apply (and, transitively, the contracts those apply: lib/binary helpers, stream helpers) is verified against the code in the same run; ghost assertions carry a vacuity check. The lemma is parametric in the sub-constructs (any construct satisfying the round-trip trait, at any nesting depth, by structural induction) and holds for all values, lengths, moduli and trailing data. Struct is verified against specification folds (Layer A) but its fold round-trip lemma, VarInt/ZigZag, byte-swapped BitsInteger, strings, arrays, Switch, the Enum family and the remaining combinators are not yet under this lemma.',
                 level_note='Hypotheses (listed in the evidence): round-trip and sized traits of sub-constructs (induction hypotheses), context agreement, sub-constructs that do not observe absolute stream positions, value-faithful length fields. Trusted: pyvc, solvers, E1-E3.'),
     'C07': dict(functional=True, generic=True, level='proof', trusted_base=[], assumptions=PY_SEM,
-                level_text="Struct._parse and Struct._build are proved equal, member by member for any number of members, to specification folds over the member list (loop invariant: state after k members = fold(k)); the nested scope is proved to be a child of the enclosing scope (_ is the enclosing scope, _params/_parsing/_building/_sizing copied, _root resolved through the parent, _index inherited), fresh and distinct; every named member value is stored in the scope and in the result after the member and before the next one; when building, all supplied siblings are in the scope before the first member is built and each member's returned value replaces it afterwards. evaluate() returns the parameter's value in the context it is given. Sequence, FocusedSeq, Union, LazyStruct, Array/_index and the public entry points are covered only by the cross-cutting frame clauses (C17), not yet by this functional contract.",
-                level_note='Members are sub-constructs known through the interface functions; member names are assumed not to shadow the reserved scope keys. Trusted: pyvc, solvers.'),
+                level_text="Struct._parse and Struct._build are proved equal, member by member for any number of members, to specification folds over the member list (loop invariant: state after k members = fold(k)); the nested scope is proved to be a child of the enclosing scope (_ is the enclosing scope, _params/_parsing/_building/_sizing copied, _root resolved through the parent, _index inherited), fresh and distinct; every named member value is stored in the scope and in the result after the member and before the next one; when building, all supplied siblings are in the scope before the first member is built and each member's returned value replaces it afterwards. evaluate() returns the parameter's value in the context it is given. For every scope-opening site (Struct, Sequence, FocusedSeq, Union, LazyStruct in parse, build and sizeof: 14 sites) the scope handed to the members is proved to be a fresh child of the enclosing scope, to keep its structural entries through the member loop (invariant), and to be the scope every member receives. The specification folds exist for Struct only; Array/_index and the public entry points are covered only by the frame clauses (C17).",
+                level_note='Members are sub-constructs known through the interface functions; member names, and the keys of a mapping supplied for building, are assumed not to shadow the structural scope entries (_, _params, _root, flags, _index). Trusted: pyvc, solvers.'),
     'C11': dict(functional=True, generic=False, level='proof', trusted_base=[], assumptions=PY_SEM, extra=native_tables('C11', ('exprs',)),
                 level_text="Every operator method of ExprMixin (12 binary, 12 reflected, 3 unary, 7 comparison/containment) is proved by symbolic execution to build the node Python's data model prescribes (operator and operand order). Printing and evaluation are decided by complete enumeration of finite tables on the real classes: every node form x slot x syntactic class of operand is rendered with repr and str, evaluated by Python itself with the placeholders bound, and compared with the operator tree (a junction's parse depends only on the class of the operand text, so by structural induction the result holds for every tree); evaluation is checked with spy operands for every operand kind and both call shapes; opnames is checked entry by entry.",
                 level_note="Python's own parser/evaluator is the trusted grammar. The induction step (junction independence) is an argument, not a machine-checked proof."),
     'C15': dict(functional=True, generic=False, level='proof', trusted_base=[], assumptions=PY_SEM, claimed=False, level_text='wip', level_note='wip'),
     'C17': dict(functional=False, generic=True, level='proof', trusted_base=[E3],
-                level_text='Frame conditions for ' + GENERIC_NOTE + ': no method stores to an attribute of self, of a sub-construct, of a class or module; parsing leaves the stream buffer unchanged; the context argument is modified only at _index and unrelated pre-existing containers are untouched (proved through every loop as an invariant). Outcomes of sub-construct calls are functions of (construct, buffer, position, context), so repeated or interleaved calls agree. Threads are not explored: with the frames proved, calls share no mutable state except caller-supplied arguments.',
+                level_text='Frame conditions for ' + GENERIC_NOTE + ': no method stores to an attribute of self, of a sub-construct, of a class or module, nor mutates a mapping or member list belonging to the construct (item stores, dict.setdefault/update/pop/clear); parsing leaves the stream buffer unchanged; the context argument is modified only at _index and unrelated pre-existing containers are untouched (proved through every loop as an invariant). Outcomes of sub-construct calls are functions of (construct, buffer, position, context), so repeated or interleaved calls agree. Threads are not explored: with the frames proved, calls share no mutable state except caller-supplied arguments.',
                 level_note='Thread schedules are argued from the frames, not explored. parse_file/build_file and the bytes/bytearray/memoryview entry points are not under contract yet. Documented exceptions (Rebuffered.stream2, Debugger.retval) are out of scope.',
                 assumptions=PY_SEM + ['threads: not explored; argued from the proved frames (no shared mutable state)']),
 }
